@@ -1434,7 +1434,13 @@ func isJSONObject(b []byte) (isJSONObject, isEmpty bool) {
 		return false, false
 	}
 
-	return true, len(b) == 2
+	// The object is empty when there is nothing but JSON whitespace between the braces
+	for _, c := range b[1 : len(b)-1] {
+		if c != ' ' && c != '\t' && c != '\n' && c != '\r' {
+			return true, false
+		}
+	}
+	return true, true
 }
 
 // injectJSONPropertyFromBytes injects val under the given key into b.
